@@ -29,7 +29,8 @@ from harness.vlib.core import Ctx
 from harness.c05 import bind, edges, fr, ops, prog, vt
 
 MODEL_FILES = ["MypyVerif/Model/VTable.lean", "MypyVerif/Model/ForRange.lean", "MypyVerif/Model/ErrEdges.lean",
-               "MypyVerif/Proofs/VTable.lean", "MypyVerif/Proofs/ForRange.lean", "MypyVerif/Proofs/ErrEdges.lean"]
+               "MypyVerif/Proofs/VTable.lean", "MypyVerif/Proofs/ForRange.lean", "MypyVerif/Proofs/ErrEdges.lean",
+               "MypyVerif/Model/PyBind.lean", "MypyVerif/Model/ArgMap.lean"]
 
 
 def main(ctx: Ctx) -> None:
